@@ -455,8 +455,8 @@ def rule_cs0013(ctx):
 
 
 def eval_array_arms(ctx, R):
-    """The arms of `Expression::propagate_degrees` that read the environment (Variable, Access, Update, Phi), by
-    evaluation: the node is built with a meta that records what is written, an environment that answers `degree(v)`
+    """The arms of `Expression::propagate_degrees` that read the environment (Variable, Access, Update, Phi) or join
+    several operands (SwitchOp, InlineArray), by evaluation: the node is built with a meta that records what is written, an environment that answers `degree(v)`
     from a table, and operands whose own degree is given.  For every combination in which the degree of every variable
     read is known: the upper bound written is at least the largest upper bound among the variables read and the
     operands (an element update keeps what the array already held - whatever the SSA version of the array is), and
@@ -551,13 +551,42 @@ def eval_array_arms(ctx, R):
                 need = max(r_[1] for r_ in combo)
                 if u is None or u < need:
                     note("Phi", "arguments of degree %s: upper bound written %s" % ([DEG[r_[1]] for r_ in combo], DEG[u] if u is not None else "none"))
+        # the inline switch: a condition of constant degree whose value is not known; either case may be the one taken
+        for a in SAMPLE + [None]:
+            for b in SAMPLE + [None]:
+                for cond in ((C, C), (C, L), None):
+                    co = operand(cond)
+                    co = (co[0], co[1], co[2] + (("value", NONE),))
+                    wr = run_node("SwitchOp", {"cond": co, "if_true": operand(a), "if_false": operand(b)}, [])
+                    n_worlds += 1
+                    u = upper(wr)
+                    shown = "cond %s ? %s : %s" % (cond and DEG[cond[1]], a and DEG[a[1]], b and DEG[b[1]])
+                    if a is None or b is None or cond is None:
+                        if wr:
+                            note("SwitchOp", "%s: a degree is written although the degree of %s is unknown (so far)" % (shown, "the condition" if cond is None else "a case"))
+                    elif wr and (u is None or u < max(a[1], b[1]) or (cond[1] > C and u < N)):
+                        note("SwitchOp", "%s: upper bound written %s" % (shown, DEG[u] if u is not None else "none"))
+        # an inline array: the degrees of all its elements
+        for combo in itertools.product(SAMPLE + [None], repeat=2):
+            vals = Sink()
+            vals.items = [operand(r_) for r_ in combo]
+            wr = run_node("InlineArray", {"values": vals}, [])
+            n_worlds += 1
+            if any(r_ is None for r_ in combo):
+                if wr:
+                    note("InlineArray", "a degree is written although an element has none")
+            else:
+                u = upper(wr)
+                need = max(r_[1] for r_ in combo)
+                if u is None or u < need:
+                    note("InlineArray", "elements of degree %s: upper bound written %s" % ([DEG[r_[1]] for r_ in combo], DEG[u] if u is not None else "none"))
     except Unsupported as ex:
         ctx.note("Expression::propagate_degrees is outside the evaluator's subset (%s): the operand-discipline obligations apply" % ex)
         return False
     except Panic as ex:
         ctx.bad(R, "Expression::propagate_degrees/evaluated/no-panic", "panics: %s" % ex, EI)
         return True
-    for variant in ("Variable", "Access", "Update", "Phi"):
+    for variant in ("Variable", "Access", "Update", "Phi", "SwitchOp", "InlineArray"):
         ctx.check(R, "Expression::propagate_degrees/%s/evaluated/keeps-every-known-degree" % variant, variant not in problems, problems.get(variant) or "%d worlds: the upper bound written covers every variable read and every operand; nothing is written when one of them is unknown" % n_worlds, EI)
     return True
 
